@@ -28,6 +28,26 @@ def symlink_inv(rng):
     return inv, set()
 
 
+def selector_inv(rng):
+    """Several nodes share the classes but differ in a selector parameter: the same include entry
+    (with a reference) resolves to an existing class for some nodes and to a missing, ignored one
+    for others -- what one node's render learns must not leak into another's."""
+    inv = G.Inv()
+    inv.ignore = True
+    inv.patterns = rng.choice([['.*'], ['^app\\.']])
+    inv.classes[('common.yml',)] = G.doc(['app.${env}'] + (['role.${role}'] if rng.random() < 0.5 else []), ['capp'],
+                                         ('m', [(S('trace'), L(S('common')))]))
+    inv.classes[('app', 'prod.yml')] = G.doc([], ['prodapp'], ('m', [(S('app'), M(('tier', S('prod')))), (S('trace'), L(S('app.prod')))]))
+    inv.classes[('role', 'web.yml')] = G.doc([], ['web'], ('m', [(S('port'), I(80)), (S('trace'), L(S('role.web')))]))
+    envs = ['dev', 'prod', 'stage', 'prod', 'dev']
+    rng.shuffle(envs)
+    for j in range(rng.randint(3, 5)):
+        inv.classes[('env%d.yml' % j,)] = G.doc([], [], ('m', [(S('env'), S(envs[j])), (S('role'), S(rng.choice(['web', 'db']) if inv.patterns == ['.*'] else 'web'))]))      # no node may fail here
+        inv.nodes[('%s%d.yml' % (rng.choice('abz'), j),)] = G.doc(['env%d' % j, 'common'], [], ('m', [(S('trace'), L(S('NODE')))]))
+    inv.universe.update(['app.dev', 'app.prod', 'app.stage', 'role.web', 'role.db', 'common'] + ['env%d' % j for j in range(5)])
+    return inv, set()
+
+
 def run(tier, rng, C):
     n = 30 if tier == 'quick' else 600
     threads = [1, 2, 3, 4, 8, 16]
@@ -35,6 +55,8 @@ def run(tier, rng, C):
     for i in range(n):
         if i % 5 == 4:
             inv, failing = symlink_inv(rng)
+        elif i % 5 == 2:
+            inv, failing = selector_inv(rng)
         else:
             inv, failing = P13.multi_node_inv(rng, fail=0.0 if i % 4 else 0.2)
         cid = C.case_id('t', i)
@@ -123,7 +145,7 @@ def run(tier, rng, C):
     res['evaluations'] = evals
     res['rule'] = ('%d multi-node inventories: whole-inventory render in fresh processes with RAYON_NUM_THREADS in %s, %d times each, '
                    'compared with each other and with the model\'s single render; every node rendered alone twice in shuffled order '
-                   'and compared with its inventory entry; two shuffled sequences of render calls (with a whole-inventory render in between) on one instance compared call by call with fresh-instance renders; one inventory in five has a class file and a class directory reachable under two names through symlinks, with relative includes; non-trivial = >= 2 nodes and >= 2 pool sizes (all)'
+                   'and compared with its inventory entry; two shuffled sequences of render calls (with a whole-inventory render in between) on one instance compared call by call with fresh-instance renders; one inventory in five has a class file and a class directory reachable under two names through symlinks, with relative includes; one in five has nodes for which the same reference-bearing include entry resolves to an existing class or to a missing, ignored one; non-trivial = >= 2 nodes and >= 2 pool sizes (all)'
                    % (n, threads, 2 if tier == 'quick' else 4))
     res['extra']['static_audit'] = static_audit()
     return res
